@@ -415,6 +415,8 @@ def gen_c02(tier, seed):
                 calls.append(call('make', list(sub) + [('\u4e66\u8bfb', 13)]))
     calls.append(call('make', [('\u4e66\u8bfb', 13)]))
     calls.append(call('make', [('\u4e66\u8bfb', 13), ('\u4e66', 13)]))
+    # automatic masks with an exact tie of the evaluation: the format information must still name the pattern that was applied
+    calls += tie_corpus_calls()
     return calls
 
 
@@ -534,6 +536,10 @@ def gen_c03(tier, seed):
             nmax = T.max_chars(v, e, 'byte')
             for content in (b'\x00' * nmax, b'\xff' * (nmax - 1), b'\x00' * (nmax // 2)):
                 specs.append((call('make', content, version=v, error=e, boost_error=False), [fault_pattern(r, v, e, lambda ec: 1)], False))
+    # multi-part content of one mode (separate segments): sized as written, also in M1 / M3 with their half codeword
+    for i, c in enumerate(gen.multipart_boundary_calls(call, True)):
+        if c['kw'].get('version') is None and (tier == 'thorough' or i % 3 == 0):
+            specs.append((c, [], False))
     # data codeword sequences that start with zero codewords (M4, numeric, one digit: 000 000001 dddd)
     for e in ('L', 'M', 'Q'):
         for d in ('0', '7'):
